@@ -9,6 +9,7 @@ EXPLAINED = {
     "repeated-point-at-segment-start": "F17",
     "node-sample-file-name": "F18",
     "computed-length-above-parse-limit": "F20",
+    "sample-file-name-ends-with-white-space": "F21",
 }
 
 
